@@ -457,6 +457,7 @@ def run(tier):
     rule_R10(res, prog)
     rule_R11(res, prog)
     rule_R12(res, prog)
+    rule_R13(res, prog)
     return res.finish()
 
 
@@ -1244,3 +1245,62 @@ def rule_R12(res, prog):
                                          fn.relfile, ln, fn.name, call["fn"], raw[1], L, want, L), file=fn.relfile, line=ln)
                     res.instance(rid, "%s:%s %s(raw buffer, %s) under %s" % (fn.name, ln, call["fn"], L, want), ok, finding=f_)
     res.floor(rid, 2 if prog.defined("USE_TLS_1_3") else 0)
+
+
+def rule_R13(res, prog):
+    """'never reads outside / through an invalid pointer' for strings kept in parsed structures: a `char *` structure field
+    that exists only when an OPTIONAL element was present (CRL nextUpdate) is NULL otherwise.  Where such a field is handed
+    to an internal function whose parameter goes to strlen(), the NULL case is excluded by a test in the callee (before the
+    strlen) or in the caller (on the field)."""
+    from sa import cfgutil as cu
+    rid = "C08.R13"
+    res.rule(rid, "a string field of a parsed structure reaches strlen() only behind a NULL test (callee or caller)")
+    STRLEN = ("strlen", "Strlen", "__builtin_strlen")
+
+    def nonnull(fs, name):
+        return any((txt == name and tr) or (txt == "(%s == 0)" % name and not tr) or (txt == "(%s != 0)" % name and tr) for (txt, tr) in fs)
+    # callee summaries: parameter index -> guarded?
+    summ = {}
+    for fn in prog.functions.values():
+        if not fn.blocks or not fn.relfile.startswith(("crypto/keyformat/", "matrixssl/")) or "/test/" in fn.relfile:
+            continue
+        gf = None
+        for b in fn.blocks:
+            for i, ln, x in cu.block_exprs(b):
+                for m in walk(x):
+                    if m.get("k") == "call" and m.get("fn") in STRLEN and m.get("a"):
+                        a = strip(m["a"][0])
+                        while a is not None and a.get("k") == "cast":
+                            a = strip(a["e"])
+                        if a is not None and a.get("k") == "var" and a.get("sc") == "p":
+                            gf = gf or cu.guard_facts(fn)
+                            pi = next((k for k, p_ in enumerate(fn.params) if p_.get("id") == a.get("id")), None)
+                            if pi is not None:
+                                g = nonnull(gf.get(b["id"], ()), a["n"])
+                                summ[(fn.name, pi)] = summ.get((fn.name, pi), True) and g
+    n = 0
+    for fn in sorted(prog.functions.values(), key=lambda f: f.qname):
+        if not fn.blocks or not fn.relfile.startswith(("crypto/keyformat/", "matrixssl/")) or "/test/" in fn.relfile:
+            continue
+        gf = None
+        for b, ln, c in fn.calls():
+            for k, a in enumerate(c.get("a", [])):
+                if (c.get("fn"), k) not in summ:
+                    continue
+                a0 = strip(a)
+                while a0 is not None and a0.get("k") == "cast":
+                    a0 = strip(a0["e"])
+                if a0 is None or a0.get("k") != "mem" or "char" not in (a0.get("t") or "") or "[" in (a0.get("t") or ""):
+                    continue
+                n += 1
+                gf = gf or cu.guard_facts(fn)
+                ok = summ[(c["fn"], k)] or nonnull(gf.get(b["id"], ()), cu.ftext(a0))
+                f_ = None
+                if not ok:
+                    f_ = Finding(PROP, rid, fn.name, "possibly absent string field reaches strlen",
+                                 "%s:%s %s(): %s is passed to %s(), which takes strlen() of it without a NULL test, and the caller does not test "
+                                 "it either: the field is only allocated when the OPTIONAL element was present in the encoding (a CRL without "
+                                 "nextUpdate parses and authenticates), so validation dereferences NULL" % (
+                                     fn.relfile, ln, fn.name, cu.ftext(a0), c["fn"]), file=fn.relfile, line=ln)
+                res.instance(rid, "%s:%s %s -> %s() parameter %d" % (fn.name, ln, cu.ftext(a0), c["fn"], k), ok, finding=f_)
+    res.floor(rid, 1)
